@@ -339,11 +339,22 @@ func parseBalanceChange(rawData []byte, sl types.StakerList) (map[string]int, er
 		for i := 7; i >= 0; i-- {
 			index++
 			if (b>>i)&1 == 1 {
+				// the data is applied again when a later round carries the price forward, by
+				// which time the staker list may have shrunk: never index past the list or the data
+				if index >= len(sl.StakerAddrs) {
+					return stakerChanges, errors.New("balance change refers to a staker that is not in the staker list")
+				}
+				if byteIndex >= len(changes) {
+					return stakerChanges, errors.New("balance change data is truncated")
+				}
 				lenValue := changes[byteIndex] << bitOffset
 				bitsLeft := 8 - bitOffset
 				lenValue >>= (8 - lengthBits)
 				if bitsLeft < lengthBits {
 					byteIndex++
+					if byteIndex >= len(changes) {
+						return stakerChanges, errors.New("balance change data is truncated")
+					}
 					lenValue |= changes[byteIndex] >> (8 - lengthBits + bitsLeft)
 					bitOffset = lengthBits - bitsLeft
 				} else {
@@ -364,6 +375,9 @@ func parseBalanceChange(rawData []byte, sl types.StakerList) (map[string]int, er
 				bitsExtracted := 0
 				stakerChange := 0
 				for bitsExtracted < int(lenValue) {
+					if byteIndex >= len(changes) {
+						return stakerChanges, errors.New("balance change data is truncated")
+					}
 					bitsLeft := 8 - bitOffset
 					byteValue := changes[byteIndex] << bitOffset
 					if (int(lenValue) - bitsExtracted) < bitsLeft {
